@@ -46,7 +46,7 @@ def step (ws : List String) : String :=
             match parsePairs sc with
             | some script =>
               let E : RodasEnv Float :=
-                { O := floatO, spacing := spacing, uround := spacing 1.0, tiny := 1e-6, half := 0.5, c128 := 128.0,
+                { O := floatO, spacing := spacing, uround := spacing 1.0, tiny := 1e-6, half := 0.5, c128 := 128.0, fixSlack := 1.0 + 1e-8,
                   tspan := tspan, opt := ⟨f1, f2, fm, hi, hm, fx == "1", ed⟩, events := evs }
               let s := E.run script E.init
               s!"T {s.T.length} {showFloats s.T.reverse} te {s.te.length} {showFloats s.te.reverse} ie " ++
